@@ -840,7 +840,7 @@ Plan genWire(const std::string& prop, int tier, uint64_t batchSeed, uint64_t idx
         // 64 / 93 / 128 / 256 favoured - per-frame containers of the receiver grow and move while earlier packets are out
         const bool manyMsgs = r.chance(1, 25);
         if (manyMsgs)
-            nm = r.chance(1, 2) ? static_cast<size_t>(r.pick<int64_t>({64, 93, 128, 256}) + r.range(-2, 3)) : 60 + r.below(341);
+            nm = r.chance(1, 2) ? static_cast<size_t>(r.pick<int64_t>({64, 93, 128, 256}) + r.range(-2, 3)) : (r.chance(1, 8) ? static_cast<size_t>(r.pick<int64_t>({1024, 2048, 4096, 4096, 5000}) + r.range(-2, 40)) : 60 + r.below(341));
         // one frame in twelve is a SERIES: 5-10 messages with the same kind, length, interface id and flags (one signal sampled
         // again and again), of which a later one may be inconsistent inside - "the previous ones were fine" must not count
         const bool series = !manyMsgs && nm > 0 && r.chance(1, 12);
@@ -849,7 +849,7 @@ Plan genWire(const std::string& prop, int tier, uint64_t batchSeed, uint64_t idx
         size_t total = 8;
         // one frame in thirty is a jumbo frame: several large messages, more than 64 KiB in total
         const bool jumbo = r.chance(1, 30);
-        const size_t frameLimit = jumbo ? 260000 : 66000;
+        const size_t frameLimit = jumbo || nm > 1000 ? 260000 : 66000;
         for (size_t k = 0; k < nm; ++k)
         {
             Item m("m");
@@ -888,14 +888,21 @@ Plan genWire(const std::string& prop, int tier, uint64_t batchSeed, uint64_t idx
             len = std::max<int64_t>(0, len);
             if (manyMsgs && len > static_cast<int64_t>(minLenOf(kind)) + 12)
                 len = static_cast<int64_t>(minLenOf(kind)) + r.range(0, 12);
+            if (nm > 1000)
+            {
+                // thousands of messages: tiny generic ones (a 5000-message frame stays below 120 KB)
+                kind = 0;
+                m.set("kind", 0).set("ptype", 0x20);
+                len = r.range(0, 3);
+            }
             if (total + 16 + static_cast<size_t>(len) > frameLimit)
                 len = static_cast<int64_t>(minLenOf(kind));
             total += 16 + static_cast<size_t>(len);
             m.set("len", len);
             m.set("ts", static_cast<int64_t>(g.pickTs())).set("ifid", static_cast<int64_t>(r.next() & 0xFFFFFFFF));
             int64_t fl = g.pickFlags();
-            if (r.chance(1, 25))
-                fl |= 0x40;  // error in payload
+            if (!manyMsgs && r.chance(1, 25))
+                fl |= 0x40;  // error in payload (ends the walk: not in the frames that are about thousands of messages)
             m.set("flags", fl);
             // deliberately inconsistent inner structure
             if (kind != 0 && r.chance(1, 3))
